@@ -1749,3 +1749,10 @@ TABLE["C13"] += [
       (PW, "        if not cpp_class in self._serializing_classes:\n            self._serializing_classes.append(cpp_class)\n",
        "        if self._serializing_classes:\n            return ''\n        self._serializing_classes.append(cpp_class)\n")),
 ]
+for _p, _r in (("C14", "R3"), ("C08", "N6"), ("C17", "Q9")):
+    pass
+TABLE["C14"] += [
+    B("group-table-as-a-mutable-default", {"R3"},
+      (MW, "    def _group_methods(self, methods):", "    def _group_methods(self, methods, seen=[]):\n        seen.extend(m.name for m in methods)")),
+    N("immutable-default-value", (MW, "    def _group_methods(self, methods):", "    def _group_methods(self, methods, skip=()):")),
+]
